@@ -155,13 +155,14 @@ class Tr:
         self.mut_params = list(spec.get("mut_params", []))
         self.recursive = spec.get("recursive", False)
         self.aux = []  # finished auxiliary definitions (text)
+        self.try_stack = []
         self.tags = {}
         self.counter = 0
         self.tmp = 0
         self.mutated = self._mutated_fields()
         # the result type of every term
         parts = (([] if self.ret == "Unit" else [self.ret]) + [self.fields[f] for f in self.mutated]
-                 + [self.params[q] for q in self.mut_params])
+                 + [(self.params.get(q) or parse_type(spec.get("extra_params", {})[q])) for q in self.mut_params])
         if not parts:
             self.res_type = "Unit"
         elif len(parts) == 1:
@@ -281,6 +282,8 @@ class Tr:
             return b, f"(h.{fld} {c})", parse_type(ty)
         if isinstance(node, ast.Subscript):
             b, c, t = self.E(node.value, env)
+            if isinstance(t, tuple) and t[0] == "Opt" and isinstance(t[1], tuple) and t[1][0] in ("Tuple", "List"):
+                b, c, t = self.unopt(b, c, t)     # `None[0]` raises TypeError
             if isinstance(t, tuple) and t[0] == "Dict":
                 bk, ck, tk = self.E(node.slice, env)
                 x = self.fresh()
@@ -393,6 +396,11 @@ class Tr:
                 return b, f"(Py.totalSeconds {self.as_int(c, t)})", "Rat"
             if meth in self.spec.get("identity_methods", ["to_reduced_units"]) and not node.args:
                 return self.E(node.func.value, env)
+            if meth == "get" and len(node.args) == 1:
+                b, c, t = self.E(node.func.value, env)
+                if isinstance(t, tuple) and t[0] == "Dict":
+                    bk, ck, _tk = self.E(node.args[0], env)
+                    return b + bk, f"(Py.dictGet? {c} {ck})", ("Opt", t[2])
             if meth in ("values", "items", "keys") and not node.args:
                 b, c, t = self.E(node.func.value, env)
                 if isinstance(t, tuple) and t[0] == "Dict":
@@ -661,6 +669,30 @@ class Tr:
             ast.copy_location(new, st)
             ast.fix_missing_locations(new)
             return self.T([new] + rest, env, k, loop)
+        if isinstance(st, ast.Try):
+            if not (len(st.handlers) == 1 and all(isinstance(x, ast.Pass) for x in st.handlers[0].body)
+                    and not st.orelse and not st.finalbody):
+                raise Untranslatable("only `try: … except <E>: pass` is supported")
+            after = lambda e: self.T(rest, e, k, loop)  # noqa  (the handler is `pass`: assignments made before the raise persist)
+            self.try_stack.append(after)
+            try:
+                return self.T(list(st.body), env, after, loop)
+            finally:
+                self.try_stack.pop()
+        if (isinstance(st, ast.Assign) and len(st.targets) == 1 and isinstance(st.targets[0], ast.Name)
+                and ast.unparse(st.value) in self.spec.get("raising", {}) and self.try_stack):
+            # an expression that raises the exception caught by the enclosing `try` (given as an Optional parameter:
+            # None = it raises)
+            code, ty = self.spec["raising"][ast.unparse(st.value)]
+            inner = parse_type(ty)
+            nm = st.targets[0].id
+            handler = self.try_stack[-1](env)
+            env2 = dict(env)
+            env2[nm] = inner[1]
+            x = self.fresh("tryv")
+            ok = [f"let {nm} := {x}"] + self.T(rest, env2, k, loop)
+            return ([f"match {code} with", "| none =>"] + ["  " + l for l in handler]
+                    + [f"| some {x} =>"] + ["  " + l for l in ok])
         if isinstance(st, ast.Delete):
             if len(st.targets) == 1 and isinstance(st.targets[0], ast.Subscript):
                 tg = st.targets[0]
@@ -1331,6 +1363,11 @@ def driver_source(specs, status, src_root):
     imports, cases = [], []
     for spec in specs:
         if spec.get("heap") or "slice" in spec or not status.get(spec["lean"], {}).get("translated"):
+            continue
+        if spec.get("group") == "Units":
+            imports.append(f"import FinamModel.Translated.{spec['lean']}")
+            cases.append(f'  | "{spec["lean"]}" => toJ (Tr.{spec["lean"]} (fromJ (argAt args 0)) (fromJ (argAt args 1)) '
+                         f'(fromJ (argAt args 2)) (fromJ (argAt args 3)))')
             continue
         try:
             tree = ast.parse(open(os.path.join(src_root, "finam", spec["path"])).read())
